@@ -216,7 +216,13 @@ def run_2d(ctx, p):
             a = np.asarray(p['a'], dtype=np.float64)
             tw = sm.Twist2.Prismatic(a)
             sc = 1.0
-        X = tw.exp(ths if len(ths) > 1 else ths[0])
+        units = p.get('units', 'rad')
+        k_ = 180 / PI if units == 'deg' and which == 'Revolute' else 1.0       # (what degrees mean for a prismatic twist is not stated)
+        arg = [t * k_ for t in ths] if len(ths) > 1 else ths[0] * k_
+        if p.get('asarray') and len(ths) > 1:
+            arg = np.array(arg)
+        X = tw.exp(arg, units) if (units == 'deg' and which == 'Revolute') else tw.exp(arg)
+        sig['units'] = units
     except Exception as e:
         ctx.bad('motion', dict(sig, kind='raised', exc=type(e).__name__), 'Twist2.%s exp(%s) raised %r' % (which, ths, e))
         return
@@ -240,7 +246,7 @@ def run_2d(ctx, p):
     except Exception as e:
         ctx.bad('accessors', dict(sig, kind='raised', exc=type(e).__name__), 'Twist2.%s isprismatic raised %r' % (which, e))
     consistency(ctx, tw, 2, ths[0], max(sc, abs(ths[0])))
-    ctx.cell('2d', which, 'vec' if len(ths) > 1 else 'scalar')
+    ctx.cell('2d', which, 'vec' if len(ths) > 1 else 'scalar', p.get('units', 'rad'))
     ctx.nontrivial('2d', which, [float('%.9g' % x) for x in np.r_[p.get('q', p.get('a')), ths]])
 
 
@@ -349,6 +355,7 @@ def run(ctx):
     for _ in range(ctx.scale(900, 20000)):
         nv = 1 if rng.random() < 0.7 else int(rng.integers(2, 5))
         if rng.random() < 0.6:
-            drive(RUNNERS, ctx, '2d', dict(which='Revolute', q=gen.vec(rng, 2, 1e-3, 1e3), thetas=[thetas(rng) for _ in range(nv)]))
+            drive(RUNNERS, ctx, '2d', dict(which='Revolute', q=gen.vec(rng, 2, 1e-3, 1e3), thetas=[thetas(rng) for _ in range(nv)],
+                                           units=['rad', 'deg'][rng.integers(2)], asarray=bool(rng.integers(2))))
         else:
             drive(RUNNERS, ctx, '2d', dict(which='Prismatic', a=gen.axis(rng)[:2] + np.array([1e-3, 0]), thetas=[thetas(rng) for _ in range(nv)]))
